@@ -160,5 +160,22 @@ Definition judge_c06 (e : env) (raw : node) (src : string) (impl : result (optio
         else true
     | _, _ => true
     end in
+  (* SET col = $n / INSERT (col) VALUES ($n): the parameter is the TARGET relation's column whatever else the statement
+     contains (a WITH clause, sub-selects, FROM items) - judged on every UPDATE / INSERT with positional placeholders
+     that occur once in the whole statement *)
+  let once_anywhere (num : Z) :=
+    Nat.eqb (List.length (filter (fun r => Z.eqb (int_of "Number" r) num) (search (is_kind "ParamRef") raw))) 1 in
+  let targets_hold :=
+    match impl, pg_relation c [] (kid "Relation" stmt) with
+    | Ok (Some q), POk cols =>
+        if negb named && negb judged && (is_kind "UpdateStmt" stmt || is_kind "InsertStmt" stmt) then
+          forallb (fun pc => match snd pc with
+                             | CTarget _ => negb (once_anywhere (fst pc)) || N.eqb (check_param [] cols false (q_params q) pc) 0
+                             | _ => true
+                             end) ctxs
+        else true
+    | _, _ => true
+    end in
+  let holds := holds && targets_hold in
   [b2n (wf_order raw) + 2 * b2n (cte_alias_shared raw) + 4 * b2n (negb judged); c06_class ctxs; b2n holds;
    outcome_diff (parse_query e raw src false) impl].
